@@ -51,6 +51,64 @@ theorem wait_optional_settled_when_evaluated (P : Prepared) (fns : Fns) (ord : O
         statusIs (react P fns ord s e).1.dag ed.1 St.resolved ∨ statusIs (react P fns ord s e).1.dag ed.1 St.unres :=
   wait_optional_settled P fns ord hord s e hP h step stage v hp
 
+/-- after fix 5cc5347: an optional ITEM of a list is handled like an optional field of a map — an absent one is left out, the
+    other items keep their order -/
+theorem absent_optional_item_left_out (fns : Fns) (g : Graph String) (data : Val) (w : Bool) (grp par : String) (e : Expr)
+    (xs : List InVal) (p : Node String) (hp : g.find? par = some p) (habs : p.res.any (fun q => q.1 = grp) = false) :
+    resolveList fns g data (.optional w grp par e :: xs) = resolveList fns g data xs := by
+  have h := optional_meaning fns g data w grp par e p hp
+  rw [habs] at h
+  simp only [Bool.false_eq_true, if_false] at h
+  rw [resolveList, h]
+  cases resolveList fns g data xs <;> rfl
+
+/-- a present optional item carries the value of its expression, in its position -/
+theorem present_optional_item_kept (fns : Fns) (g : Graph String) (data : Val) (w : Bool) (grp par : String) (e : Expr)
+    (xs : List InVal) (vs : List Val) (v : Val) (p : Node String) (hp : g.find? par = some p)
+    (hpres : p.res.any (fun q => q.1 = grp) = true) (hv : evalExpr fns data e = .ok v) (hnn : v ≠ Val.null)
+    (hxs : resolveList fns g data xs = .ok vs) :
+    resolveList fns g data (.optional w grp par e :: xs) = .ok (v :: vs) := by
+  have h := optional_meaning fns g data w grp par e p hp
+  rw [hpres] at h
+  simp only [if_true, hv] at h
+  rw [resolveList, h, hxs]
+  cases v <;> first | rfl | exact absurd rfl hnn
+
+/-- no item that is an absent optional survives as `null`: a `null` in the result of a list comes from a non-optional item -/
+theorem list_result_null_only_from_non_optional (fns : Fns) (g : Graph String) (data : Val) :
+    ∀ (xs : List InVal) (vs : List Val), resolveList fns g data xs = .ok vs → Val.null ∈ vs →
+      ∃ x ∈ xs, resolveIn fns g data x = .ok Val.null ∧ ∀ w grp par e, x ≠ .optional w grp par e := by
+  intro xs
+  induction xs with
+  | nil => intro vs h hm; rw [resolveList] at h; cases h; cases hm
+  | cons x xs ih =>
+    intro vs h hm
+    rw [resolveList] at h
+    cases hx : resolveIn fns g data x with
+    | error e => rw [hx] at h; cases h
+    | ok v =>
+      rw [hx] at h
+      cases hr : resolveList fns g data xs with
+      | error e => rw [hr] at h; cases h
+      | ok vs' =>
+        rw [hr] at h
+        simp only at h
+        split at h
+        · have hv : vs = vs' := by injection h with h; exact h.symm
+          rw [hv] at hm
+          obtain ⟨y, hy, hy2⟩ := ih vs' hr hm
+          exact ⟨y, List.mem_cons_of_mem _ hy, hy2⟩
+        · rename_i hne
+          have hv : vs = v :: vs' := by injection h with h; exact h.symm
+          rw [hv] at hm
+          rcases List.mem_cons.mp hm with hm | hm
+          · subst hm
+            refine ⟨x, List.mem_cons_self, hx, ?_⟩
+            intro w grp par e hxe
+            exact hne w grp par e hxe rfl
+          · obtain ⟨y, hy, hy2⟩ := ih vs' hr hm
+            exact ⟨y, List.mem_cons_of_mem _ hy, hy2⟩
+
 /-- a soft-optional dependency (`opt`) and an obviated one are not hard: they never keep a node from becoming ready -/
 theorem soft_optional_not_hard : Dep.opt.hard = false ∧ Dep.obv.hard = false ∧ Dep.cand.hard = true ∧ Dep.and.hard = true := by
   decide
